@@ -634,7 +634,10 @@ public:
                     if (std::is_same<value_type, int8_t>::value)
                     {
                         v.resize(ta.size());
-                        std::memcpy(v.data(), ta.data(), ta.size()*sizeof(value_type));
+                        if (!ta.empty())
+                        {
+                            std::memcpy(v.data(), ta.data(), ta.size()*sizeof(value_type));
+                        }
                     }
                     else
                     {
@@ -652,7 +655,10 @@ public:
                     if (std::is_same<value_type, int16_t>::value)
                     {
                         v.resize(ta.size());
-                        std::memcpy(v.data(), ta.data(), ta.size()*sizeof(value_type));
+                        if (!ta.empty())
+                        {
+                            std::memcpy(v.data(), ta.data(), ta.size()*sizeof(value_type));
+                        }
                     }
                     else
                     {
@@ -670,7 +676,10 @@ public:
                     if (std::is_same<value_type, int32_t>::value)
                     {
                         v.resize(ta.size());
-                        std::memcpy(v.data(), ta.data(), ta.size()*sizeof(value_type));
+                        if (!ta.empty())
+                        {
+                            std::memcpy(v.data(), ta.data(), ta.size()*sizeof(value_type));
+                        }
                     }
                     else
                     {
@@ -688,7 +697,10 @@ public:
                     if (std::is_same<value_type, int64_t>::value)
                     {
                         v.resize(ta.size());
-                        std::memcpy(v.data(), ta.data(), ta.size()*sizeof(value_type));
+                        if (!ta.empty())
+                        {
+                            std::memcpy(v.data(), ta.data(), ta.size()*sizeof(value_type));
+                        }
                     }
                     else
                     {
@@ -706,7 +718,10 @@ public:
                     if (std::is_same<value_type, uint8_t>::value)
                     {
                         v.resize(ta.size());
-                        std::memcpy(v.data(), ta.data(), ta.size()*sizeof(value_type));
+                        if (!ta.empty())
+                        {
+                            std::memcpy(v.data(), ta.data(), ta.size()*sizeof(value_type));
+                        }
                     }
                     else
                     {
@@ -724,7 +739,10 @@ public:
                     if (std::is_same<value_type, uint16_t>::value)
                     {
                         v.resize(ta.size());
-                        std::memcpy(v.data(), ta.data(), ta.size()*sizeof(value_type));
+                        if (!ta.empty())
+                        {
+                            std::memcpy(v.data(), ta.data(), ta.size()*sizeof(value_type));
+                        }
                     }
                     else
                     {
@@ -742,7 +760,10 @@ public:
                     if (std::is_same<value_type, uint32_t>::value)
                     {
                         v.resize(ta.size());
-                        std::memcpy(v.data(), ta.data(), ta.size()*sizeof(value_type));
+                        if (!ta.empty())
+                        {
+                            std::memcpy(v.data(), ta.data(), ta.size()*sizeof(value_type));
+                        }
                     }
                     else
                     {
@@ -760,7 +781,10 @@ public:
                     if (std::is_same<value_type, uint64_t>::value)
                     {
                         v.resize(ta.size());
-                        std::memcpy(v.data(), ta.data(), ta.size()*sizeof(value_type));
+                        if (!ta.empty())
+                        {
+                            std::memcpy(v.data(), ta.data(), ta.size()*sizeof(value_type));
+                        }
                     }
                     else
                     {
@@ -778,7 +802,10 @@ public:
                     if (std::is_same<value_type, int16_t>::value)
                     {
                         v.resize(ta.size());
-                        std::memcpy(v.data(), ta.data(), ta.size()*sizeof(value_type));
+                        if (!ta.empty())
+                        {
+                            std::memcpy(v.data(), ta.data(), ta.size()*sizeof(value_type));
+                        }
                     }
                     else if (std::is_floating_point<value_type>::value)
                     {
@@ -804,7 +831,10 @@ public:
                     if (std::is_same<value_type, float>::value)
                     {
                         v.resize(ta.size());
-                        std::memcpy(v.data(), ta.data(), ta.size()*sizeof(value_type));
+                        if (!ta.empty())
+                        {
+                            std::memcpy(v.data(), ta.data(), ta.size()*sizeof(value_type));
+                        }
                     }
                     else
                     {
@@ -822,7 +852,10 @@ public:
                     if (std::is_same<value_type, double>::value)
                     {
                         v.resize(ta.size());
-                        std::memcpy(v.data(), ta.data(), ta.size()*sizeof(value_type));
+                        if (!ta.empty())
+                        {
+                            std::memcpy(v.data(), ta.data(), ta.size()*sizeof(value_type));
+                        }
                     }
                     else
                     {
